@@ -8,6 +8,7 @@ import Driver.Ka
 import Driver.Dp
 import Driver.Rq
 import Driver.Cn
+import Driver.Cl
 /-!
 # Line-protocol driver
 
@@ -24,6 +25,7 @@ structure St where
   dp : DrvDp.DSt := {}
   rq : DrvRq.RSt := {}
   cn : Conn.State := {}
+  cl : Client.State := {}
 
 def showPlainErr : Option PlainErr → String
   | none => "none" | some .requiresEncryption => "requiresEncryption" | some .protocol => "protocol"
@@ -134,6 +136,7 @@ def step (st : St) (line : String) : St × String :=
     else if h.startsWith "dp." then let r := DrvDp.dpStep st.dp ws; ({ st with dp := r.1 }, r.2)
     else if h.startsWith "rq." then let r := DrvRq.rqStep st.rq ws; ({ st with rq := r.1 }, r.2)
     else if h.startsWith "cn." then let r := DrvCn.cnStep st.cn ws; ({ st with cn := r.1 }, r.2)
+    else if h.startsWith "cl." then let r := DrvCl.clStep st.cl ws; ({ st with cl := r.1 }, r.2)
     else (st, "bad-op")
 
 partial def loop (h : IO.FS.Stream) (out : IO.FS.Stream) (st : St) : IO Unit := do
